@@ -20,6 +20,7 @@ mod c05;
 mod c06;
 mod c07;
 mod c08;
+mod c09;
 mod c19;
 mod codec;
 
@@ -58,6 +59,7 @@ registry! {
     "C06" => c06::C06,
     "C07" => c07::C07,
     "C08" => c08::C08,
+    "C09" => c09::C09,
 }
 
 fn parse_tier(s: &str) -> Tier {
